@@ -951,9 +951,11 @@ class String2Key(Field):
         if self.specifier == String2KeyType.GNUExtension:
             _bytes += b'\x00GNU'
             _bytes.append(self.gnuext)
-            if self.scserial:
-                _bytes.append(len(self.scserial))
-                _bytes += self.scserial
+            if self.gnuext == S2KGNUExtension.Smartcard:
+                # the length octet is there even when the serial number is empty
+                scserial = self.scserial or b''
+                _bytes.append(len(scserial))
+                _bytes += scserial
         return _bytes
 
     def __len__(self):
